@@ -234,13 +234,13 @@ def run(tier, replay=None):
         def tlc(mode):
             return run_tlc_sharded("MC_DensityModes",
                                    dict(constants={"Tier": tier, "Mode": mode, "Gen": True}, invariants=INVS + ["Emit"]),
-                                   nshards=(4 if mode == "wavevec" else 8 if tier == "quick" else None),
+                                   nshards=(4 if mode in ("wavevec", "nearq") else 8 if tier == "quick" else None),
                                    env=({"TRACE_FILE": path} if mode == "trace" else None))
 
-        # the four models are independent: their TLC runs overlap (JVM start dominates in the quick tier)
+        # the five models are independent: their TLC runs overlap (JVM start dominates in the quick tier)
         import concurrent.futures as cf
-        modes = ("wavevec", "grid", "hash", "trace")
-        with cf.ThreadPoolExecutor(max_workers=(4 if tier == "quick" else 1)) as ex:
+        modes = ("wavevec", "grid", "hash", "nearq", "trace")
+        with cf.ThreadPoolExecutor(max_workers=(5 if tier == "quick" else 1)) as ex:
             results = dict(zip(modes, ex.map(tlc, modes)))
         for mode in modes:
             g = results[mode]
